@@ -882,6 +882,7 @@ static int CmdRun(const std::string& prop, Tier tier, uint64_t base_seed, int jo
             ++k;
         }
         Batch b2{e, tier, jobs, 0, {}, 0, std::chrono::steady_clock::now()};
+        b2.known_keys = b.known_keys;
         b2.results.resize(runs + ndup);
         b2.Run(dups);
         for (size_t k = 0; k < dups.size(); ++k) b.results[dups[k].idx] = b2.results[dups[k].idx];
